@@ -7,6 +7,7 @@ import (
 	"github.com/alpacahq/marketstore/v4/verif/mc"
 	"github.com/alpacahq/marketstore/v4/verif/rt/vos"
 	"github.com/alpacahq/marketstore/v4/verif/rt/vrt"
+	"github.com/alpacahq/marketstore/v4/verif/rt/vsync"
 	"github.com/alpacahq/marketstore/v4/verif/world"
 )
 
@@ -49,5 +50,133 @@ func init() {
 				c.Violate("smoke-failed", fmt.Sprintf("rows=%d deadlock=%v livelock=%v panics=%v trace=%v sched=%v devlog=%d", rows, sch.Deadlock, sch.Livelock, sch.Panics, trace, sch.Trace, vos.Cur().LogLen()))
 			}
 			c.Sample(map[string]any{"n": s.N, "harness_trace": trace, "steps": sch.Steps, "threads": len(sch.Threads), "device_ops": vos.Cur().LogLen()})
+		})
+}
+
+// hb-selftest: the happens-before race detector (rt/vrt/hb.go) on hand-written programs with a known answer:
+// it must report the unsynchronised pairs and stay silent when the accesses are ordered by a mutex, an
+// RW-mutex, a channel, a wait group, a once or go/join — whatever the schedule.
+
+type hbSpec struct {
+	Case   int   `json:"case"`
+	Prefix []int `json:"prefix,omitempty"`
+}
+
+type hbCase struct {
+	name  string
+	races int // expected number of distinct racing pairs
+	body  func(x *int, y *int)
+}
+
+var hbCases = []hbCase{
+	{"two unsynchronised writers", 1, func(x, y *int) {
+		a := vrt.Spawn("A", func() { *vrt.W(x, "t.x@a:1") = 1 })
+		b := vrt.Spawn("B", func() { *vrt.W(x, "t.x@b:1") = 2 })
+		vrt.Join(a, b)
+	}},
+	{"unsynchronised reader and writer", 1, func(x, y *int) {
+		a := vrt.Spawn("A", func() { *vrt.W(x, "t.x@a:1") = 1 })
+		b := vrt.Spawn("B", func() { _ = *vrt.R(x, "t.x@b:1") })
+		vrt.Join(a, b)
+	}},
+	{"two readers", 0, func(x, y *int) {
+		a := vrt.Spawn("A", func() { _ = *vrt.R(x, "t.x@a:1") })
+		b := vrt.Spawn("B", func() { _ = *vrt.R(x, "t.x@b:1") })
+		vrt.Join(a, b)
+	}},
+	{"writers under one mutex", 0, func(x, y *int) {
+		var mu vsync.Mutex
+		f := func(s string) func() {
+			return func() { mu.Lock(); *vrt.W(x, "t.x@"+s) = 1; mu.Unlock() }
+		}
+		a, b := vrt.Spawn("A", f("a:1")), vrt.Spawn("B", f("b:1"))
+		vrt.Join(a, b)
+	}},
+	{"writers under different mutexes", 1, func(x, y *int) {
+		var m1, m2 vsync.Mutex
+		a := vrt.Spawn("A", func() { m1.Lock(); *vrt.W(x, "t.x@a:1") = 1; m1.Unlock() })
+		b := vrt.Spawn("B", func() { m2.Lock(); *vrt.W(x, "t.x@b:1") = 2; m2.Unlock() })
+		vrt.Join(a, b)
+	}},
+	{"reader under RLock, writer under Lock", 0, func(x, y *int) {
+		var mu vsync.RWMutex
+		a := vrt.Spawn("A", func() { mu.Lock(); *vrt.W(x, "t.x@a:1") = 1; mu.Unlock() })
+		b := vrt.Spawn("B", func() { mu.RLock(); _ = *vrt.R(x, "t.x@b:1"); mu.RUnlock() })
+		vrt.Join(a, b)
+	}},
+	{"message passing over a channel", 0, func(x, y *int) {
+		ch := make(chan int, 1)
+		a := vrt.Spawn("A", func() { *vrt.W(x, "t.x@a:1") = 1; vrt.Send(ch, 1) })
+		b := vrt.Spawn("B", func() { vrt.Recv(ch); _ = *vrt.R(x, "t.x@b:1") })
+		vrt.Join(a, b)
+	}},
+	{"write after the send is not ordered", 1, func(x, y *int) {
+		ch := make(chan int, 1)
+		a := vrt.Spawn("A", func() { vrt.Send(ch, 1); *vrt.W(x, "t.x@a:2") = 1 })
+		b := vrt.Spawn("B", func() { vrt.Recv(ch); _ = *vrt.R(x, "t.x@b:1") })
+		vrt.Join(a, b)
+	}},
+	{"wait group", 0, func(x, y *int) {
+		var wg vsync.WaitGroup
+		wg.Add(1)
+		a := vrt.Spawn("A", func() { *vrt.W(x, "t.x@a:1") = 1; wg.Done() })
+		b := vrt.Spawn("B", func() { wg.Wait(); _ = *vrt.R(x, "t.x@b:1") })
+		vrt.Join(a, b)
+	}},
+	{"once-initialised field read through the once", 0, func(x, y *int) {
+		var o vsync.Once
+		f := func(s string) func() {
+			return func() { o.Do(func() { *vrt.W(x, "t.x@init") = 7 }); _ = *vrt.R(x, "t.x@"+s) }
+		}
+		a, b := vrt.Spawn("A", f("a:1")), vrt.Spawn("B", f("b:1"))
+		vrt.Join(a, b)
+	}},
+	{"once-initialised field read WITHOUT the once", 1, func(x, y *int) {
+		var o vsync.Once
+		a := vrt.Spawn("A", func() { o.Do(func() { *vrt.W(x, "t.x@init") = 7 }) })
+		b := vrt.Spawn("B", func() { _ = *vrt.R(x, "t.x@b:1") })
+		vrt.Join(a, b)
+	}},
+	{"parent writes before go, child reads; parent reads after join", 0, func(x, y *int) {
+		*vrt.W(x, "t.x@p:1") = 1
+		a := vrt.Spawn("A", func() { _ = *vrt.R(x, "t.x@a:1"); *vrt.W(y, "t.y@a:2") = 2 })
+		vrt.Join(a)
+		_ = *vrt.R(y, "t.y@p:2")
+	}},
+	{"different variables", 0, func(x, y *int) {
+		a := vrt.Spawn("A", func() { *vrt.W(x, "t.x@a:1") = 1 })
+		b := vrt.Spawn("B", func() { *vrt.W(y, "t.y@b:1") = 2 })
+		vrt.Join(a, b)
+	}},
+}
+
+func init() {
+	mc.Def(mc.Check{ID: "hb-selftest", Level: "exploration", Rule: "13 two-thread programs with a known number of racing pairs; ALL interleavings of each (unbounded: the programs are tiny); the detector must report exactly the expected pairs in EVERY schedule", Shards: 1, MinOutcom: 2},
+		func(c *mc.Ctx, yield func(hbSpec)) {
+			for i := range hbCases {
+				yield(hbSpec{Case: i})
+			}
+		},
+		func(c *mc.Ctx, s hbSpec) {
+			hc := hbCases[s.Case]
+			var rec func(prefix []int)
+			rec = func(prefix []int) {
+				world.FreshDevice()
+				x, y := new(int), new(int)
+				sch := vrt.Run(prefix, nil, func() { hc.body(x, y) })
+				c.Eval(fmt.Sprint(s.Case, prefix), true)
+				c.Outcome(fmt.Sprintf("races=%d", len(sch.Races)))
+				if len(sch.Races) != hc.races || sch.Deadlock || len(sch.Panics) > 0 {
+					c.Violate("hb-selftest|"+hc.name, fmt.Sprintf("%q, schedule %v: %d racing pair(s) reported (%v), expected %d; deadlock=%v panics=%v", hc.name, prefix, len(sch.Races), sch.RaceSummary(), hc.races, sch.Deadlock, sch.Panics))
+				}
+				ch, _ := choicesOf(sch)
+				for i := len(prefix); i < len(sch.Points); i++ {
+					for alt := 1; alt < len(sch.Points[i].Options); alt++ {
+						rec(append(append([]int{}, ch[:i]...), alt))
+					}
+				}
+			}
+			rec(nil)
+			c.Sample(map[string]any{"program": hc.name, "expected_racing_pairs": hc.races})
 		})
 }
